@@ -300,7 +300,7 @@ Neighborhood ==
 
 \* array.py neighborhood on an irregular vertex/index array, and the neighbourhood of that neighbourhood
 NeighborhoodVI ==
-    /\ IsFree /\ last # "obs" /\ Len(path) < 2 /\ Len(free) <= MaxLenSel
+    /\ IsFree /\ last # "obs" /\ Len(path) < 2 /\ Len(free) <= (IF level > 0 THEN MaxLenUp ELSE MaxLenSel)
     /\ free' = NbrVI(free)
     /\ prev' = free /\ last' = "nbr"
     /\ path' = Append(path, Step("nbr", << >>, << >>))
